@@ -118,7 +118,7 @@ func liveRun(c *core.Ctx, r *core.Result, idx int, rng *rand.Rand) {
 			time.Sleep(time.Duration(rng.Intn(30)) * time.Millisecond)
 		}
 		time.Sleep(time.Duration(50+rng.Intn(300)) * time.Millisecond)
-		ending := core.Pick(rng, "peer-logout", "abrupt", "abrupt-mid-traffic")
+		ending := core.Pick(rng, "peer-logout", "abrupt", "abrupt-mid-traffic", "peer-logout-burst")
 		if cn == conns-1 && rng.Intn(2) == 0 {
 			ending = "engine-stop"
 		}
@@ -128,6 +128,23 @@ func liveRun(c *core.Ctx, r *core.Result, idx int, rng *rand.Rand) {
 			p.Msg("5", 0, nil, nil)
 			p.WaitFor(live.IsType("5"), 10*time.Second)
 			seq = p.Next()
+			p.Close()
+		case "peer-logout-burst":
+			// the Logout and the messages behind it arrive in one write: they are queued when the session ends the connection
+			p.SendMu.Lock()
+			n := p.Next()
+			mk := func(t string, seq int, body fixwire.Fields) []byte {
+				rest := fixwire.Fields{{Tag: 35, Val: t}, {Tag: 34, Val: fmt.Sprint(seq)}, {Tag: 49, Val: "P" + tag}, {Tag: 52, Val: time.Now().UTC().Format("20060102-15:04:05.000")}, {Tag: 56, Val: "E" + tag}}
+				return fixwire.Build(begin, append(rest, body...))
+			}
+			order := fixwire.Fields{lab.F(11, "late"), lab.F(21, "1"), lab.F(55, "IBM"), lab.F(54, "1"), lab.F(60, "20260925-10:00:00"), lab.F(38, "1"), lab.F(40, "1")}
+			all := append(append(mk("5", n, nil), mk("D", n+1, order)...), mk("1", n+2, fixwire.Fields{lab.F(112, "LATE")})...)
+			_ = p.Raw(all)
+			p.SetNext(n + 3)
+			p.SendMu.Unlock()
+			p.WaitFor(live.IsType("5"), 10*time.Second)
+			time.Sleep(50 * time.Millisecond)
+			seq = n + 1 // only the Logout can have been consumed
 			p.Close()
 		case "abrupt", "abrupt-mid-traffic":
 			if ending == "abrupt-mid-traffic" {
